@@ -111,7 +111,17 @@ def payload_rows(ctx: Ctx):
         "renamed_key": {"a": 1, "c": "x"}, "value_none": {"a": 1, "b": None},
         "wrong_type": {"a": "1", "b": "x"}, "empty_dict": {},
     }
+    from pydsol.core.units import Duration
+    from pydsol.core.pubsub import EventProducer, EventListener
     stamps = {"int": 3, "float": 2.5, "str": "3", "none": None}
+    alt_stamps = {"int": 2 ** 53 + 1, "float": Duration(2, "h")}     # the timestamp is carried as given (no normalisation)
+
+    class Sink(EventListener):
+        def __init__(self):
+            self.got = []
+
+        def notify(self, e):
+            self.got.append(e)
     n = 0
     for nid, st in nodes.items():
         row = st["row"]
@@ -122,7 +132,7 @@ def payload_rows(ctx: Ctx):
                 ev = Event(et, content, row["chk"])
             else:
                 ev = TimedEvent(stamps[row["st"]], et, content, row["chk"])
-                if ev.timestamp != stamps[row["st"]]:
+                if ev.timestamp != stamps[row["st"]] or type(ev.timestamp) is not type(stamps[row["st"]]):
                     ctx.violation("timestamp", f"TimedEvent carries {ev.timestamp}, constructed with {stamps[row['st']]}", dict(row))
             res = "ok"
             if ev.content is not content or ev.event_type is not et:
@@ -131,6 +141,31 @@ def payload_rows(ctx: Ctx):
             res = "EventError"
         except Exception as ex:
             res = type(ex).__name__
+        # the same row through the producer's convenience methods fire / fire_timed (check flag forwarded, event delivered as fired)
+        if row["et"] == "eventtype":
+            prod, sink = EventProducer(), Sink()
+            prod.add_listener(et, sink)
+            for variant in ([stamps[row["st"]]] + ([alt_stamps[row["st"]]] if row["st"] in alt_stamps else [])) if row["st"] != "untimed" else [None]:
+                sink.got.clear()
+                try:
+                    if row["st"] == "untimed":
+                        prod.fire(et, content, row["chk"])
+                    else:
+                        prod.fire_timed(variant, et, content, row["chk"])
+                    pres = "ok"
+                except EventError:
+                    pres = "EventError"
+                except Exception as ex:
+                    pres = type(ex).__name__
+                if pres != row["res"]:
+                    ctx.violation(f"producer|{row['c']}|{row['m']}|{row['chk']}|{row['st']}", f"fire{'_timed' if row['st'] != 'untimed' else ''} row {dict(row)}: -> {pres}, specification {row['res']}", dict(row))
+                elif pres == "ok":
+                    if len(sink.got) != 1 or sink.got[0].content is not content:
+                        ctx.violation("producer|delivery", f"fire row {dict(row)}: delivered {len(sink.got)} events", dict(row))
+                    elif row["st"] != "untimed":
+                        ts = sink.got[0].timestamp
+                        if ts != variant or type(ts) is not type(variant):
+                            ctx.violation("timestamp", f"event fired with timestamp {variant!r} ({type(variant).__name__}) carries {ts!r} ({type(ts).__name__})", dict(row))
         n += 1
         ctx.distinct.add(("row", tuple(sorted((k, str(v)) for k, v in row.items()))))
         if res != row["res"]:
